@@ -160,6 +160,13 @@ pub fn ext_hw(node: usize) -> [u8; 8] {
 pub fn short_hw(node: usize) -> [u8; 2] {
     [0x5a, 0x01 + node as u8]
 }
+/// the address `Interface::set_hardware_addr` switches the sender to in the "hwchg" part
+pub fn changed_hw(kind: HwKind) -> Ieee802154Address {
+    match kind {
+        HwKind::Ext => Ieee802154Address::Extended([0x1a, 0x0b, 0x42, 0x42, 0x42, 0xa9, 0xb9, 0x09]),
+        HwKind::Short => Ieee802154Address::Short([0x5a, 0x09]),
+    }
+}
 /// interface identifier a node would derive from its link-layer address (RFC 4944 §6)
 pub fn iid_of(node: usize, hw: HwKind) -> [u8; 8] {
     match hw {
@@ -262,10 +269,12 @@ pub struct FillDevice {
     pub fill: u8,
     pub rx: VecDeque<Vec<u8>>,
     pub tx: Vec<(i64, Vec<u8>)>,
+    /// remaining successful `transmit()` calls (back-pressure); None = unlimited
+    pub budget: Option<usize>,
 }
 impl FillDevice {
     pub fn new(medium: Medium, mtu: usize, fill: u8) -> FillDevice {
-        FillDevice { medium, mtu, fill, rx: VecDeque::new(), tx: Vec::new() }
+        FillDevice { medium, mtu, fill, rx: VecDeque::new(), tx: Vec::new(), budget: None }
     }
     pub fn take_tx(&mut self) -> Vec<(i64, Vec<u8>)> {
         std::mem::take(&mut self.tx)
@@ -304,6 +313,11 @@ impl Device for FillDevice {
         Some((FillRx(f), FillTx { tx: &mut self.tx, ts: ts.total_micros(), fill: self.fill }))
     }
     fn transmit(&mut self, ts: Instant) -> Option<FillTx<'_>> {
+        match self.budget {
+            Some(0) => return None,
+            Some(ref mut n) => *n -= 1,
+            None => {}
+        }
         Some(FillTx { tx: &mut self.tx, ts: ts.total_micros(), fill: self.fill })
     }
 }
@@ -318,6 +332,7 @@ pub struct Node {
     pub icmp: Option<SocketHandle>,
     pub tcp: Option<SocketHandle>,
     pub addrs: Vec<Ipv6Address>,
+    pub per_poll: Option<usize>,
 }
 
 fn udp_sock(meta: usize, bytes: usize) -> udp::Socket<'static> {
@@ -410,9 +425,12 @@ impl Node {
         } else {
             None
         };
-        Node { iface, dev, sockets, udp, warm, raw, icmp, tcp, addrs }
+        Node { iface, dev, sockets, udp, warm, raw, icmp, tcp, addrs, per_poll: None }
     }
     pub fn poll(&mut self, now: i64) {
+        if let Some(n) = self.per_poll {
+            self.dev.budget = Some(n);
+        }
         self.iface.poll(Instant::from_micros(now), &mut self.dev, &mut self.sockets);
     }
     pub fn poll_at(&mut self, now: i64) -> Option<i64> {
@@ -615,6 +633,32 @@ impl World {
 // evidence (fragment histogram), for picking the fragment frames in the permutation part and
 // for readable violation details -- never as the oracle of what must be delivered.
 // ---------------------------------------------------------------------------------------
+
+/// link-layer source address octets of an 802.15.4 frame (as on the wire), None if absent
+pub fn mac_src(f: &[u8]) -> Option<Vec<u8>> {
+    if f.len() < 3 {
+        return None;
+    }
+    let fcf = u16::from_le_bytes([f[0], f[1]]);
+    let panid_comp = fcf & (1 << 6) != 0;
+    let dst_mode = (fcf >> 10) & 3;
+    let src_mode = (fcf >> 14) & 3;
+    let mut n = 3 + match dst_mode {
+        0 => 0,
+        2 => 4,
+        3 => 10,
+        _ => return None,
+    };
+    let l = match src_mode {
+        2 => 2,
+        3 => 8,
+        _ => return None,
+    };
+    if !panid_comp {
+        n += 2;
+    }
+    f.get(n..n + l).map(|x| x.to_vec())
+}
 
 /// length of the 802.15.4 MAC header (IEEE 802.15.4-2006 §7.2.1), None if malformed
 pub fn mac_hdr_len(f: &[u8]) -> Option<usize> {
